@@ -42,9 +42,14 @@ SHAPES: Dict[str, Tuple[str, int, Any]] = {
     "index": ("{{'k': {0}}}['k']", 1, lambda v: v[0]),
     "strpre": ("')' != '(' && {0}", 1, lambda v: v[0]),
     "stror": ("'(' == ')(' || {0}", 1, lambda v: v[0]),
+    "stresc": ("\"a\\\"\" == \"b\" || {0}", 1, lambda v: v[0]),
+    "stresc2": ("'it\\'s' == '' ? {1} : {0}", 2, lambda v: v[0]),
+    "pp": ("({0}) || ({1})", 2, lambda v: v[0] or v[1]),
+    "ppand": ("({0} || {1}) && ({2})", 3, lambda v: (v[0] or v[1]) and v[2]),
+    "ppt": ("({0}) ? ({1}) : ({2})", 3, lambda v: v[1] if v[0] else v[2]),
     "strq": ("[{0}, '&& || ? :' == ')'].exists(x, x)", 1, lambda v: v[0]),
 }
-COMPOUND = ["and", "or", "tern", "off", "on", "andor", "orand", "strpre", "stror"]
+COMPOUND = ["and", "or", "tern", "off", "on", "andor", "orand", "strpre", "stror", "stresc", "stresc2", "pp", "ppand", "ppt"]
 SIMPLE = [s for s in SHAPES if s not in COMPOUND]
 
 # real Custodian clauses (resource type, clause) — every family with a compound translation, and plain ones
@@ -62,6 +67,10 @@ REAL: Dict[str, List[Any]] = {
         {"type": "image-age", "days": 3, "op": "ge"},
         {"type": "tag-count", "count": 8},
         {"type": "health-event"},
+        {"type": "value", "key": "e", "op": "eq", "value": 'say "hi'},
+        {"type": "offhour", "opt-out": True, "tag": 'down"time', "default_tz": "et", "offhour": 19},
+        {"type": "onhour", "tag": "it's", "default_tz": "et", "onhour": 7},
+        {"type": "value", "key": "f", "op": "ne", "value": "a && b || (c ? d : e"},
     ],
     "vpc": [
         {"type": "value", "key": "a", "op": "eq", "value": 1},
@@ -290,8 +299,8 @@ class C18(Prop):
     trusted = ["lark's lexer and the LALR(1) uniqueness meta-theorem (as in C06)",
                "text-level scanner top_level_logic vs. its token-level model (string literals are single tokens): corresponded",
                "the library's evaluator on the boolean fragment (&&, ||, !, ?:, ==, in, exists) agrees with evalBool: corresponded"]
-    rule = ("filter trees with connectives and/or/not/list, fan-out 1-3, depth <= 4: every tree shape with <= 5 nodes (quick) / <= 7 "
-            "nodes (thorough) plus random larger ones; leaves are boolean clause representatives of 19 top-level shapes (atom, !, &&, "
+    rule = ("filter trees with connectives and/or/not/list, fan-out 1-3, depth <= 4: every tree shape with <= 5 nodes (quick) / <= 6 nodes and 3000 of the 21232 with 7 "
+            "nodes (thorough) plus random larger ones; leaves are boolean clause representatives of 24 top-level shapes (atom, !, &&, "
             "||, ?:, offhour-/onhour-like ?:, relation, in, call, index, parenthesised, a && (b || c), a || b && c, a string literal "
             "containing operators) or real Custodian clauses (value, marked-for-op, offhour, onhour, flow-logs, is-not-logging, ...) "
             "through the real rewriters; all 2^k truth assignments to the k clauses (k <= 6; 64 random ones above), each realised by "
@@ -494,13 +503,15 @@ class C18(Prop):
         cases: List[Dict[str, Any]] = []
         shapes_all = list(SHAPES)
         trees: List[Any] = []
-        for n in range(1, (5 if quick else 7) + 1):
+        for n in range(1, (5 if quick else 6) + 1):
             trees += list(tree_shapes(n, 4))
         if quick:
             for _ in range(260):
                 trees.append(rand_tree(rng, rng.randint(6, 7), 4))
         else:
-            for _ in range(1500):
+            seven = list(tree_shapes(7, 4))
+            trees += rng.sample(seven, 3000)
+            for _ in range(500):
                 trees.append(rand_tree(rng, rng.randint(8, 10), 4))
         ctr = 0
         for t in trees:
@@ -522,7 +533,7 @@ class C18(Prop):
                 cases.append({"kind": "bool", "f": [conn, [["prim", {"shape": s1, "i": 0}], ["prim", {"shape": s2, "i": 1}]]],
                               "seed": rng.randrange(1 << 16)})
         # real clauses
-        nreal = 250 if quick else 3000
+        nreal = 250 if quick else 1500
         for _ in range(nreal):
             res = rng.choice(list(REAL))
             t = rand_tree(rng, rng.randint(2, 7), 4)
